@@ -123,8 +123,10 @@ def concrete_file(f):
             'counts': [[c['n'], c['v']] for c in sorted(f['counts'], key=lambda c: c['n'])]}
 
 
-def step_of(cfg, d, files, x, reply=200, cfgver='v0.77.0'):
-    return {'cfg': concrete_cfg(cfg, d), 'cfgver': cfgver, 'x': x / d, 'reply': reply,
+def step_of(cfg, d, files, x, reply=200, cfgver='v0.77.0', xs=None):
+    """One uploader run.  xs: the values (over d) that the successive random draws
+    of the run return, cyclically (default: x for every draw)."""
+    return {'cfg': concrete_cfg(cfg, d), 'cfgver': cfgver, 'x': x / d, 'xs': [y / d for y in (xs or [x])], 'reply': reply,
             'files': [concrete_file(f) for f in sorted(files, key=lambda f: f['id'])], 'start': START_S}
 
 
@@ -395,7 +397,15 @@ def rand_case(rng, d, nweeks=2):
     r = rng.choice(rates)
     x = rng.choice([0, 1, d // 2, d - 1, r, max(0, r - 1), min(d - 1, r + 1), rng.randint(0, d - 1)])
     x = min(x, d - 1)
-    return {'cfg': cfg, 'files': files, 'x': x}
+    # further draws of the same run return other values: one across a listed rate from x
+    # (in either direction), then one half the range away
+    r2 = rng.choice(rates)
+    x2 = min(d - 1, r2 + 1) if x <= r2 else max(0, min(r2, d - 1))
+    xs = [x]
+    for y in (x2, (x + d // 2) % d, (x + d // 4) % d):
+        if y not in xs:
+            xs.append(y)
+    return {'cfg': cfg, 'files': files, 'x': x, 'xs': xs[:3]}
 
 
 # ------------------------------------------------------------------ naming a disagreement
